@@ -142,8 +142,9 @@ def gen_history(rng, length, force=None):
         else:
             u, t = rng.sample(ALL, 2)
             dt = rng.choice(dates)
+            # (without an effective date the configured callable supplies it)
             ops.append(["mc_call", "c", rat(Fraction(rng.randint(1, 10 ** 6), 100)), u, t,
-                        f"{dt[0]}-{dt[1]}-{dt[2]}", mode])
+                        "-" if rng.random() < .3 else f"{dt[0]}-{dt[1]}-{dt[2]}", mode])
     return {"ops": ops, "fork": True, "base": base, "tags": ["history:" + kind]}
 
 
